@@ -382,6 +382,16 @@ def cases(tier, rng):
                 continue
             case["rows2"] = [list(r) if rng.random() < 0.6 else [rng.choice(codes) for _ in range(rng.choice([0, 1, 2, 9]))] for r in cur[1]]
         yield case
+    # 2c. str_equal of ONE sequence (1-d array / single row) with a string: every pair of strings of length 0..3 over two letters
+    #     (a one-character operand must not be broadcast against a homopolymer)
+    for enc in (ENCS if big else ENCS[:2]):
+        codes = list(range(len(ALPH[enc]))) if enc != "BaseEncoding" else [ord(ch) for ch in ALPH[enc]]
+        words = [[]] + [list(w) for n in (1, 2, 3) for w in itertools.product(codes[:2], repeat=n)]
+        for a in words:
+            for b in words:
+                if not b:
+                    continue
+                yield {"op": "strequal", "enc": enc, "r": [a], "s": b, "single": True}
     # 3. str_equal, split, join
     for _ in range(600 if big else 120):
         enc = rng.choice(ENCS)
@@ -463,6 +473,11 @@ def impl(c):
     from bionumpy.encoded_array import EncodedArray, EncodedRaggedArray
     from bionumpy.io.strops import split, join, str_equal
     op = c["op"]
+    if op == "strequal" and c.get("single"):
+        one = _build(c["enc"], {"t": "flat", "l": c["r"][0]})
+        other = _text_of(c["s"], c["enc"]) if c["enc"] == "BaseEncoding" else _build(c["enc"], {"t": "flat", "l": c["s"]})
+        res = str_equal(one, other)
+        return [bool(res)] if np.ndim(res) == 0 else {"err": "not-a-scalar", "value": [bool(x) for x in np.ravel(res)]}
     if op == "strequal":
         r = _build(c["enc"], {"t": "rag", "r": c["r"]})
         return [bool(b) for b in str_equal(r, _text_of(c["s"], c["enc"]) if c["enc"] == "BaseEncoding" else _build(c["enc"], {"t": "rag", "r": [c["s"]] * len(c["r"])}))]
